@@ -108,6 +108,9 @@ pub enum P {
     JoinHosted(S, Box<P>),
     /// async: two handles to one child: spawn(child: req a->event); join(jh.clone(), jh); event m
     JoinTwice(S, S),
+    /// like SpawnJoin, but the parent awaits `join(handle, 40 self-waking yields)`: the handle is polled
+    /// dozens of times while its task is still running, then once more with no other waker user
+    JoinBusy(S, S),
     Then(Box<P>, Box<P>),
     And(Box<P>, Box<P>),
     All(Vec<P>),
@@ -167,7 +170,7 @@ impl P {
             | P::SelfWake(a, _) | P::Trigger(a, _) | P::SiblingAbort(a, _) | P::JoinHosted(a, _) => vec![a],
             P::ReqReq(a, b) | P::ReqStream(a, b) | P::StreamReq(a, b) | P::StreamStream(a, b)
             | P::Join(a, b) | P::Select(a, b) | P::SpawnJoin(a, b) | P::SpawnAfter(a, b) | P::SpawnEvent(a, b) | P::Burst(a, b) | P::Channel(a, b)
-            | P::Unordered(a, b) | P::JoinTwice(a, b) | P::MixedNotify(a, b) | P::AbortSpawned(a, b) | P::SelfAbort(a, b) | P::SpawnThenSelfAbort(a, b)
+            | P::Unordered(a, b) | P::JoinTwice(a, b) | P::JoinBusy(a, b) | P::MixedNotify(a, b) | P::AbortSpawned(a, b) | P::SelfAbort(a, b) | P::SpawnThenSelfAbort(a, b)
             | P::StreamUntil(a, b) | P::SpawnChain(a, b) | P::StreamHandOff(a, b) => vec![a, b],
             P::AbortChild(a, b, c) | P::IntoFuture(a, b, c) | P::JoinReq(a, b, c) | P::SelectJoinReq(a, b, c) | P::HandOff(a, b, c)
             | P::JoinSpawn(a, b, c) => vec![a, b, c],
@@ -213,7 +216,7 @@ impl P {
             match p {
                 P::Event(_) | P::SelfWake(..) => {}
                 P::Trigger(..) => {}
-                P::SpawnJoin(a, _) | P::Burst(_, a) | P::SpawnEvent(_, a) | P::JoinTwice(a, _) => a.label = label,
+                P::SpawnJoin(a, _) | P::Burst(_, a) | P::SpawnEvent(_, a) | P::JoinTwice(a, _) | P::JoinBusy(a, _) => a.label = label,
                 P::AbortChild(a, b, _) => {
                     a.label = label;
                     b.label = label;
